@@ -7,7 +7,7 @@ graph of both Codec::encodev no error return is reachable after a buffer write (
 source). stream-accounting: over-delivery force-closes without writing, the remaining counter is
 decreased by the written length, a dropped unfinished stream force-closes, the codec refuses a chunk
 longer than what is owed or when nothing is owed. Decides code shape; the byte stream itself is not
-parsed. stream-accounting (continued): the roll-back of streaming_remaining is not reachable from (nor attached to a Result carrying) check_streaming()'s refusal; codec-guard (continued): every io::Dispatcher is built with the shared connection state (one codec object for sink and dispatcher).
+parsed. stream-accounting (continued): the roll-back of streaming_remaining is not reachable from (nor attached to a Result carrying) check_streaming()'s refusal; codec-guard (continued): every io::Dispatcher is built with the shared connection state (one codec object for sink and dispatcher). stream-accounting (continued): the payload-owed counter is written only by the functions that start a publish or write a chunk (who-may-write); StreamingPayload::send marks the handle finished only after the chunk went through encode_publish_payload.
 """
 from facts import *
 from disp import agg_sites, all_dispatchers
